@@ -901,7 +901,14 @@ def check_rchk(ctx, prog):
         gets = [bi for bi, c, t in cfg.calls_in(blocks)
                 if c == "std::collections::HashMap::get" and "ast::Var" in (t.get("res") or "")]
         ok = False
-        for bi in gets:
+        # `&bindings[var]`: Index::index on the map panics by itself when the key is missing
+        idx = [bi for bi, c, t in cfg.calls_in(blocks)
+               if c and c.endswith("std::ops::Index>::index") and "HashMap<ast::Var" in (t.get("res") or "")
+               or (c and "std::ops::Index" in c and "ast::Var" in (t.get("res") or "") and "HashMap" in (t.get("res") or ""))]
+        if idx:
+            ok = True
+            gets = gets or idx
+        for bi in (gets if not idx else []):
             # result flows into Option::unwrap_or_else(panic closure) or a match whose None arm diverges
             nxt = blocks[bi]["term"]["t"]
             t2 = blocks[nxt]["term"] if nxt >= 0 else None
